@@ -200,6 +200,11 @@ def run(ctx):
             if not exists:
                 clsc["dtstart-in-gap"] += 1
                 s6 = own_start.get(i, s6)
+            elif ds[0] >= 2038 and own_start.get(i, s6) != s6:
+                # behind the end of the 32-bit zone table in a zone whose rules go on: which instant that is, is C07's business
+                # too (recorded there as D190); the stream is judged against DTSTART as echse converts it
+                clsc["dtstart-after-2037-in-zone-with-later-rules"] += 1
+                s6 = own_start[i]
             if inst[0][:6] < s6:
                 why = "first occurrence %s lies before DTSTART (%s UTC)" % (inst[0][:6], s_utc)
         if why is None and zone and inst and r.until is not None and r.until[3] is not None:
